@@ -20,23 +20,8 @@ def check(ctx):
             check_launch_coverage(ctx, KE, fam, mode)
     check_build_Q(ctx)
     # a statistic is a function of the kernel's arguments only if no kernel modifies them (the record is shared between bins)
-    from ..effects import Effects
-    E = Effects(ctx.repo); m = 0
-    for backend in BACKENDS:
-        for fam in FAMILIES:
-            for mode in MODES:
-                key = kernel_key(fam, mode, backend)
-                if not ctx.repo.has(key): continue
-                sm = E.summary(key); m += 1
-                bad = [sm["params"][i] for i in sorted(sm["writes_param"])]
-                where = ctx.repo.where(key, ctx.repo.get(key))
-                if bad:
-                    sk = sm["sinks"][sm["params"].index(bad[0])][0]
-                    ctx.violated("R8-inputs-untouched", key, f"the kernel modifies its argument {bad[0]} in place ({sk.kind}: {sk.detail}): the record is shared by all bins, so the "
-                                 "statistics of every later bin are computed from altered samples", f"{key.split('::')[0]}:{getattr(sk.node, 'lineno', 0)}")
-                else:
-                    ctx.holds("R8-inputs-untouched", key, "no in-place effect reaches x1, x2, starts, w or Q (interprocedural effect summary)", where)
-    ctx.need("kernels summarised for effects", m, 18)
+    from ..kernels import check_inputs_untouched
+    check_inputs_untouched(ctx)
     from ..dtypes import check_dtypes
     check_dtypes(ctx)
     ctx.call_sites = len(KE.I.call_log)
